@@ -307,7 +307,7 @@ func c08Small(c *Ctx) {
 }
 
 func c08Random(c *Ctx) {
-	n := c.N(3000, 100000)
+	n := c.N(4000, 300000)
 	for i := 0; i < n; i++ {
 		c.Case(int64(i), func(k *K) {
 			r := k.Rand()
@@ -330,7 +330,7 @@ func c08Random(c *Ctx) {
 }
 
 func c08Shipped(c *Ctx) {
-	n := c.N(600, 12000)
+	n := c.N(900, 40000)
 	ms := shippedMatrices()
 	for i := 0; i < n; i++ {
 		c.Case(int64(i), func(k *K) {
@@ -383,7 +383,7 @@ func c09Small(c *Ctx) {
 }
 
 func c09Random(c *Ctx) {
-	n := c.N(2000, 100000)
+	n := c.N(3000, 300000)
 	for i := 0; i < n; i++ {
 		c.Case(int64(i), func(k *K) {
 			r := k.Rand()
@@ -402,7 +402,7 @@ func c09Random(c *Ctx) {
 }
 
 func c09Levenshtein(c *Ctx) {
-	n := c.N(1500, 40000)
+	n := c.N(2000, 150000)
 	for i := 0; i < n; i++ {
 		c.Case(int64(i), func(k *K) {
 			r := k.Rand()
@@ -436,7 +436,7 @@ func c09Levenshtein(c *Ctx) {
 }
 
 func c09Shipped(c *Ctx) {
-	n := c.N(900, 18000)
+	n := c.N(1200, 60000)
 	ms := shippedMatrices()
 	for i := 0; i < n; i++ {
 		c.Case(int64(i), func(k *K) {
@@ -554,7 +554,7 @@ func c10Small(c *Ctx) {
 }
 
 func c10Random(c *Ctx) {
-	n := c.N(2000, 100000)
+	n := c.N(3000, 300000)
 	for i := 0; i < n; i++ {
 		c.Case(int64(i), func(k *K) {
 			r := k.Rand()
